@@ -144,7 +144,7 @@ func runC15(c *Ctx) {
 		for _, e := range ana.Exits(split) {
 			if e.Panic {
 				nPanic++
-				r.Check(mustPass(split, e.Instr.Block(), pre), "C15.split-helper.precondition", c.ipos(e.Instr), "panic exactly under n <= 1")
+				r.Check(exitMustPass(split, e, pre), "C15.split-helper.precondition", c.ipos(e.Instr), "panic exactly under n <= 1")
 				continue
 			}
 			nRet++
@@ -183,7 +183,7 @@ func runC15(c *Ctx) {
 			if et.Is("nil") {
 				want := "call<(hash.Hash).Sum>(obj(" + hnew + ", " + prefix("0") + ", call<(hash.Hash).Write>(self, ext#0(" + mb + "))), nil)"
 				_, ok := ana.MatchX(c.P, want, vt)
-				r.Check(ok && mustPass(leafFn, e.Instr.Block(), okGate), "C15.shape.leaf", c.ipos(e.Instr), "leaf = t.hash: Write([0x00]), Write(marshalled leaf), Sum(nil), only after MarshalBinary succeeded %s", ana.Explain(want, vt))
+				r.Check(ok && exitMustPass(leafFn, e, okGate), "C15.shape.leaf", c.ipos(e.Instr), "leaf = t.hash: Write([0x00]), Write(marshalled leaf), Sum(nil), only after MarshalBinary succeeded %s", ana.Explain(want, vt))
 			} else {
 				_, ok := ana.Match("ext#1("+mb+")", et)
 				r.Check(ok && vt.Is("nil"), "C15.error-discipline.marshal", c.ipos(e.Instr), "MarshalBinary's error is returned instead of a hash")
